@@ -1926,6 +1926,27 @@ def replay(path):
             if root is not None:
                 print("let %s = %s  →  %s  constant_value=%s" % (
                     name, emb_text(ast), atype_of(root.type), cv_of(root)))
+        if not errors and not errs:
+            # the header tie: calls in the generated header vs the calls the property asks for
+            ir_full, errors_full, exc_full = emb.compile_text({"m.emb": text})
+            if exc_full is None and ir_full is not None and not errors_full:
+                from compiler.back_end.cpp import header_generator
+                try:
+                    h, _herrs = header_generator.generate_header(ir_full)
+                    print("header calls:", sorted(" ".join(k) for k in header_calls(h or "")))
+                except Exception as e:  # noqa: BLE001
+                    print("generate_header raised", repr(e))
+                nodes = []
+                for _n, root in virtual_roots([m for m in ir_full.module if m.source_file_name == "m.emb"]):
+                    rendered_calls(root, nodes)
+                print("expected for the virtual fields:",
+                      sorted(set(" ".join(sg) for sg in map(spec_sig, nodes) if sg)))
+        if True:
+            why = [(str(e.source_location), spec_gate(e)) for e, top, attr, enumv in
+                   iter_expressions([m for m in ir.module if m.source_file_name == "m.emb"])
+                   if top and attr != "static_requirements" and not enumv and atype_of(e.type)]
+            print("top-level expressions that do not fit one 64-bit type (spec oracle; accepted ones "
+                  "are violations):", [w for w in why if w[1]])
         if "environment" in rec:
             lets = dict((n, a) for n, a, _ in parse_lets(text))
             a = lets.get(rec.get("expression"))
